@@ -312,7 +312,9 @@ def shrink(case):
             mk(fx=[[x[0], x[1], -1, x[3]] for x in fx])               # every field an object of its own
         if len(set(x[1] for x in fx)) > 1:
             mk(fx=[[x[0], 0, x[2], x[3]] for x in fx])                # equal values
-        if [x[0] for x in fx] != list(range(len(fx))):
+        if any(x[2] >= 0 for x in fx):
+            pass                                                      # one object cannot carry two start lines
+        elif [x[0] for x in fx] != list(range(len(fx))):
             # the start lines of the older streams; then the hand-built part can go altogether
             mk(fx=[[i, x[1], x[2], x[3]] for i, x in enumerate(fx)])
         elif all(x[2] < 0 and x[3] == 0 for x in fx) and [x[1] for x in fx] == list(range(len(fx))):
